@@ -295,17 +295,45 @@ class World:
                               "%s: entry %r under a virtual deadline gave %r" % (where, pool[e], got))
 
 
+class _Stuck(Exception):
+    pass
+
+
+def _alarm(signum, frame):
+    raise _Stuck()
+
+
+STEP_WALL_S = 120   # one step normally takes milliseconds; the only real-time bound here
+
+
 def _exec_ops(lib, case, ops, V, stats):
+    import signal
     w = World(lib, case, V, stats)
     before = state_digest(lib)
+    old_handler = signal.signal(signal.SIGALRM, _alarm)
     for i, op in enumerate(ops):
-        w.step(i, op)
+        # bounded liveness: a step that blocks (e.g. on a lock still held by a suspended
+        # candidate stream) is reported, not waited for
+        signal.setitimer(signal.ITIMER_REAL, STEP_WALL_S)
+        try:
+            w.step(i, op)
+        except _Stuck:
+            w.viol("C12.liveness", "step-did-not-complete",
+                   "step %d %s did not complete within %d s of wall time while other candidate "
+                   "streams were open / abandoned (blocked on state held by another call?)"
+                   % (i, json.dumps(op), STEP_WALL_S))
+            signal.setitimer(signal.ITIMER_REAL, 0)
+            signal.signal(signal.SIGALRM, old_handler)
+            return w.obs
+        finally:
+            signal.setitimer(signal.ITIMER_REAL, 0)
         if op.get("checkpoint"):
             if state_digest(lib) != before:
                 w.viol("C12.shared-state", "model-or-rule-base-modified",
                        "after step %d %s the digest of the shipped model / rule registry / "
                        "part-of-day table changed" % (i, json.dumps(op)))
                 before = state_digest(lib)
+    signal.signal(signal.SIGALRM, old_handler)
     for h in list(w.handles.values()):
         h[0].close()
     w.handles.clear()
